@@ -105,7 +105,11 @@ impl Runtime {
     pub fn launch(self: &Arc<Self>, proc: &Arc<Process>) {
         debug!("scheduler::launch");
         let proc = proc.clone();
+        #[cfg(feature = "verif")]
+        let _verif_guard = crate::verif::inflight();
         tokio::spawn(async move {
+            #[cfg(feature = "verif")]
+            let _verif_guard = _verif_guard;
             proc.start();
         });
     }
@@ -281,6 +285,10 @@ impl Runtime {
             });
 
             let evt = self.emitter().clone();
+            #[cfg(feature = "verif")]
+            if crate::verif::manual_tick() {
+                return;
+            }
             Handle::current().spawn(async move {
                 let mut intv =
                     time::interval(Duration::from_millis(default_interval_millis as u64));
@@ -315,7 +323,11 @@ impl Runtime {
 
         let action = Action::new(pid, tid, event, &vars);
         let scher = self.clone();
+        #[cfg(feature = "verif")]
+        let _verif_guard = crate::verif::inflight();
         tokio::spawn(async move {
+            #[cfg(feature = "verif")]
+            let _verif_guard = _verif_guard;
             let _ = scher
                 .do_action(&action)
                 .map_err(|err| error!("scher::return_to_act {}", err.to_string()));
